@@ -30,6 +30,7 @@ def observe(V):
         vertices=np.array(p.vertices, float),
     )
     obs["face_area_forms"] = C.face_area_forms(p, obs["face_areas"])
+    obs["float32_form"] = C.float32_probe(coxeter.shapes.ConvexPolyhedron, V)
     # (last: this resizes p) the measures are those of the solid as it is now, also when they were asked for before a resize
     obs["after_resize"] = C.resize_probe(p, lambda s_: coxeter.shapes.ConvexPolyhedron(np.array(s_.vertices)))
     return obs
@@ -81,6 +82,8 @@ def judge(chk, tag, V, obs, code, spec, fc_specs):
         fails.append(("get_face_area-call-forms", prob))
     for prob in obs.get("after_resize", [])[:1]:
         fails.append(("measures-stale-after-resize", prob))
+    for prob in obs.get("float32_form", [])[:1]:
+        fails.append(("input-element-type-changes-measures", prob))
     # a "face" is one facet of the hull: the simplices grouped into it must be coplanar (exactly, for the dyadic inputs used here;
     # 1e-10 of the size allowed) - otherwise per-face areas and face centroids describe something that is not a face
     Vv, Ss = obs["vertices"], obs["simplices"]
